@@ -13,7 +13,7 @@ NAME_SETS = [["p1", "p2"], ["p1", "p2"], ["a", "a_b"]]
 
 
 def mk_world(c):
-    return cw.ClientWorld(c["fw"], c["names"], c["cache"], c["pkce"], c["openid"], oauth1=c.get("oauth1", False), rotate=c.get("rotate", False), discovery=c.get("discovery", False))
+    return cw.ClientWorld(c["fw"], c["names"], c["cache"], c["pkce"], c["openid"], oauth1=c.get("oauth1", False), rotate=c.get("rotate", False), discovery=c.get("discovery", False), ext_cache=c.get("ext_cache", False))
 
 
 def run_op(w, op):
@@ -33,7 +33,7 @@ def gen_history(rng, cfg, length):
     for _ in range(length):
         r = rng.random()
         if r < 0.4 or not begun:
-            op = {"op": "begin", "sess": rng.choice([0, 1]), "name": rng.choice(names), "redirect": rng.choice(["https://rp/cb", "https://rp/cb2", None])}
+            op = {"op": "begin", "sess": rng.choice([0, 1]), "name": rng.choice(names), "redirect": rng.choice(["https://rp/cb", "https://rp/cb2", None, "https://rp/cb?next=%2Fa#section", "https://rp/spa#/callback"])}
             o = w.begin(op["sess"], op["name"], op["redirect"])
             op["state"] = o["state"]
             op["data"] = w.peek(op["sess"], op["name"], o["state"])
@@ -74,6 +74,9 @@ def configs():
             out.append({"fw": fw, "cache": cache, "pkce": False, "openid": False, "oauth1": True})
             # OpenID with a rotated provider key: the client re-fetches the JWKS before validating the ID token
             out.append({"fw": fw, "cache": cache, "pkce": True, "openid": True, "rotate": True})
+            if fw == "flask" and not cache:
+                # an application that uses a cache extension for its own purposes and gives the OAuth registry none: flows stay bound to the session
+                out.append({"fw": fw, "cache": False, "pkce": True, "openid": False, "ext_cache": True})
             # providers registered through their discovery document only (server_metadata_url): fetched once, on first use of the app object
             out.append({"fw": fw, "cache": cache, "pkce": cache, "openid": True, "discovery": True})
     return out
@@ -189,8 +192,11 @@ def oracle(c, out):
                 # StarletteIntegration keeps one flow per provider-name prefix in a session
                 for k in [k for k in live if k[0] == op["sess"] and f"_state_{k[1]}_{k[2]}".startswith(f"_state_{op['name']}_")]:
                     live.pop(k)
+            o = dict(o, asked_redirect=op.get("redirect"))
             live[(op["sess"], op["name"], o["state"])] = o
             ever[(op["name"], o["state"])] = (op["sess"], o)
+            if op.get("redirect") and not c.get("oauth1") and o.get("url_redirect") != op["redirect"]:
+                bad(f"authorize_redirect({op['redirect']!r}) put redirect_uri {o.get('url_redirect')!r} into the authorization URL", kind="wrong-redirect", where="authorization-url")
             if c["pkce"] and not o.get("url_challenge"):
                 bad("PKCE configured but the authorization URL carries no code_challenge", kind="no-challenge")
             continue
@@ -219,6 +225,8 @@ def oracle(c, out):
                 if c.get("oauth1") and (o["sent"]["token"] != op.get("state") or o["sent"]["verifier"] != "rs" + str(op.get("state"))[2:]):
                     bad(f"the access-token request for request token {op.get('state')!r} carried token {o['sent']['token']!r} signed with secret {o['sent']['verifier']!r}, "
                         "not the request token saved for this flow", kind="wrong-request-token")
+                if b.get("asked_redirect") and not c.get("oauth1") and o["sent"]["redirect"] != b["asked_redirect"]:
+                    bad(f"redirect_uri sent to the token endpoint ({o['sent']['redirect']!r}) is not the one the application saved for this state ({b['asked_redirect']!r})", kind="wrong-redirect")
                 if o["sent"]["redirect"] != b["url_redirect"]:
                     bad(f"redirect_uri sent to the token endpoint ({o['sent']['redirect']!r}) is not the one of the authorization request ({b['url_redirect']!r})", kind="wrong-redirect")
                 if c["pkce"] and (not o["sent"]["verifier"] or cw.s256(o["sent"]["verifier"]) != b["url_challenge"]):
